@@ -100,7 +100,7 @@ func stepClass(op string) int {
 	switch {
 	case isWrite(op):
 		return clsWrite
-	case strings.HasPrefix(op, "get") || op == "scan":
+	case strings.HasPrefix(op, "get") || op == "scan" || op == "scank":
 		return clsRead
 	}
 	return clsGlobal
